@@ -56,6 +56,18 @@ func (n *reNode) Close(ctx context.Context) error {
 }
 
 // wrapNode: a decorator that is not a Closer itself but unwraps to one (NodeUnwrapper)
+// loopPayload is a Gateable whose composition is a Gateable flush event again
+type loopPayload struct {
+	id    string
+	flush bool
+}
+
+func (l *loopPayload) GetID() string    { return l.id }
+func (l *loopPayload) FlushEvent() bool { return l.flush }
+func (l *loopPayload) ComposeFrom(events []*eventlogger.Event) (eventlogger.EventType, interface{}, error) {
+	return "outer", &loopPayload{id: "again", flush: true}, nil
+}
+
 type wrapNode struct{ inner eventlogger.Node }
 
 func (w *wrapNode) Process(ctx context.Context, e *eventlogger.Event) (*eventlogger.Event, error) {
@@ -192,6 +204,31 @@ func reentryMain(args []string) {
 					ok = ok && watchdog("Send after the overwrite", oracle, func() { ob.Send(ctx, "outer", "plain") })
 					ok = ok && watchdog("RemoveNode of the dropped gated.Filter", oracle, func() { ob.RemoveNode(ctx, "og") })
 					ok = ok && watchdog("SetSuccessThreshold after the overwrite", oracle, func() { ob.SetSuccessThreshold("outer", 0) })
+				}
+				// a Gateable whose composition is itself a Gateable flush event of a type that runs through the
+				// same filter: the filter refuses it (C11) or lets it through, but every call returns
+				{
+					lb, _ := eventlogger.NewBroker()
+					var now int64
+					lg := &gated.Filter{Broker: lb, Expiration: time.Second, NowFunc: func() time.Time { return time.Unix(1000+atomic.LoadInt64(&now), 0) }}
+					lb.RegisterNode("lg", lg)
+					lb.RegisterNode("lg-again", lg) // the same filter under a second id, in no pipeline
+					lb.RegisterNode("lfmt", mk(eventlogger.NodeTypeFormatter))
+					lb.RegisterNode("lsink", mk(eventlogger.NodeTypeSink))
+					lb.RegisterPipeline(eventlogger.Pipeline{PipelineID: "lp", EventType: "outer", NodeIDs: []eventlogger.NodeID{"lg", "lfmt", "lsink"}})
+					for i := 0; i <= pending && ok; i++ {
+						ok = watchdog("Send(gateable whose composition is gateable)", oracle, func() {
+							lb.Send(ctx, "outer", &loopPayload{id: fmt.Sprintf("l%d", i)})
+						})
+					}
+					atomic.StoreInt64(&now, 10) // everything gated has expired
+					ok = ok && watchdog("Send sweeping expired groups whose composition is a Gateable flush event", oracle, func() {
+						lb.Send(ctx, "outer", &loopPayload{id: "late"})
+					})
+					ok = ok && watchdog("RemoveNode closing a gated.Filter whose composition is a Gateable flush event", oracle, func() { lb.RemoveNode(ctx, "lg-again") })
+					ok = ok && watchdog("RemovePipelineAndNodes closing a gated.Filter whose composition is a Gateable flush event", oracle, func() {
+						lb.RemovePipelineAndNodes(ctx, "outer", "lp")
+					})
 				}
 				// a stock sink whose write(2) fails (its file is a symbolic link to /dev/full): the retry path of
 				// FileSink.Process runs with the sink's own lock held; Send, a second Send and Reopen all return
